@@ -153,6 +153,13 @@ func (vc *VC) replayStructFields(st *State, path string, t types.Type, p Value, 
 			// e.g. sync.Mutex inside: leave zero
 			continue
 		}
+		if !f.Exported() {
+			// an unexported field of a struct of another package (sync.Mutex.state) cannot be set
+			// from the replay test, which lives in the package of the function under replay
+			if n := namedOf(t); n != nil && n.Obj().Pkg() != nil && vc.contract != nil && n.Obj().Pkg().Path() != vc.contract.Pkg {
+				continue
+			}
+		}
 		fv := vc.load(st, fp, f.Type())
 		vc.replayWalk(st, path+"."+f.Name(), f.Type(), fv, depth+1)
 	}
@@ -189,7 +196,8 @@ func tryReplay(e *Engine, verif string, o *Obligation, rf *ReplayFile) *ReplayOu
 		case "iface", "ptr-other":
 			pref = append(pref, sEq(in.Terms[0], "0"))
 		case "slice-other":
-			pref = append(pref, sEq(in.Terms[2], "0"))
+			// elements cannot be chosen, but a slice of that many zero elements can be built
+			pref = append(pref, "(<= "+in.Terms[2]+" "+strconv.Itoa(replayMaxElems)+")")
 		case "bytes":
 			pref = append(pref, "(<= "+in.Terms[2]+" "+strconv.Itoa(replayMaxElems)+")", "(<= "+in.Terms[3]+" 4096)")
 		case "string":
@@ -410,7 +418,13 @@ func genReplayTest(e *Engine, vc *VC, fn *ssa.Function, o *Obligation, vals []st
 			}
 			assign(fmt.Sprintf("append(make(%s, 0, %d), []%s{%s}...)", typeStr(in.Typ), cp, et, strings.Join(el, ", ")))
 		case "slice-other":
-			assign("nil")
+			ln, _ := strconv.Atoi(tv[2])
+			if tv[0] == "0" || ln < 0 || ln > replayMaxElems {
+				assign("nil")
+			} else {
+				// a non-nil slice of that many zero elements (possibly empty)
+				assign(fmt.Sprintf("make(%s, %d)", typeStr(in.Typ), ln))
+			}
 		case "string":
 			ln, _ := strconv.Atoi(tv[2])
 			if ln < 0 || ln > replayMaxElems {
